@@ -45,6 +45,18 @@ class StrOverride(Exception):
         return 'custom-str'
 
 
+class AppOSError(OSError):
+    pass
+
+
+class SlotsError(Exception):
+    __slots__ = ('code',)
+
+    def __init__(self, msg, code):
+        super().__init__(msg, code)
+        self.code = code
+
+
 class TwoArgs(Exception):
     def __init__(self, a, b):
         super().__init__(a, b)
@@ -58,6 +70,20 @@ MAKERS = {
     'TwoArgs': lambda: TwoArgs(1, 'two'),
     'StrOverride': lambda: StrOverride('hidden'),
     'UnicodeDecodeError': lambda: UnicodeDecodeError('ascii', b'\xff', 0, 1, 'r'),
+    # classes with a C-level __new__ / __init__ of their own, keyword-only state, or unusual constructors
+    'OSError': lambda: OSError(5, 'Input/output error'),
+    'FileNotFoundError': lambda: FileNotFoundError(2, 'No such file or directory', 'missing.txt'),
+    'TimeoutError': lambda: TimeoutError('timed out'),
+    'ConnectionResetError': lambda: ConnectionResetError(104, 'reset'),
+    'BlockingIOError': lambda: BlockingIOError(11, 'would block', 3),
+    'AppOSError': lambda: AppOSError(13, 'denied'),
+    'UnicodeEncodeError': lambda: UnicodeEncodeError('ascii', 'é', 0, 1, 'r'),
+    'StopIteration': lambda: StopIteration('payload'),
+    'ImportError': lambda: ImportError('no module', name='m', path='/p'),
+    'SyntaxError': lambda: SyntaxError('bad', ('f.py', 3, 7, 'x =')),
+    'AttributeError': lambda: AttributeError('no attr', name='a', obj=7),
+    'ExceptionGroup': lambda: ExceptionGroup('several', [ValueError(1), KeyError('k')]),
+    'SlotsError': lambda: SlotsError('s', 9),
     'RecursionError': lambda: RecursionError('deep'),
     'KeyboardInterrupt': lambda: KeyboardInterrupt(),
     'SystemExit': lambda: SystemExit(3),
@@ -93,6 +119,21 @@ def line_col(src, off):
     return src.count('\n', 0, off) + 1, off - (src.rfind('\n', 0, off) + 1)
 
 
+def uncombinable(cls):
+    from chameleon.exc import RenderError
+    try:
+        new = type('Probe', (cls, RenderError), {})
+    except TypeError:
+        return True
+    for maker in (BaseException.__new__, cls.__new__):
+        try:
+            maker(new)
+            return False
+        except TypeError:
+            continue
+    return True
+
+
 def check_exception(ctx, e, clsname, want_records, what, replay):
     """M-exc + record comparison.  want_records: [(expression, filename-suffix, line, col)] innermost first."""
     from chameleon.exc import RenderError
@@ -115,8 +156,13 @@ def check_exception(ctx, e, clsname, want_records, what, replay):
     if not isinstance(e, type(planted)):
         problems.append('class %r lost: got %r' % (clsname, type(e).__mro__[:3]))
     if not isinstance(e, RenderError):
+        if isinstance(e, type(planted)) and repr(e.args) == repr(planted.args) and uncombinable(type(planted)):
+            # known mechanism: no instance of a class derived from (this class, RenderError) can be made without
+            # running the class's own constructor, so the engine lets the original exception pass as it is
+            return finish(ctx, ['%s left render() as the original object: not a RenderError, no expression / position in its message' % clsname],
+                          'exception-class-that-cannot-be-combined-with-RenderError-passes-unwrapped', what, replay)
         problems.append('not a RenderError')
-    if e.args != planted.args:
+    if repr(e.args) != repr(planted.args):
         problems.append('args %r != %r' % (e.args, planted.args))
     if clsname == 'TwoArgs' and getattr(e, 'extra', None) != 1:
         problems.append('attribute lost')
